@@ -209,12 +209,12 @@ def s1(spec):
         else:
             want, assume = unit, [unit >= 1]
         for f in (Config.parse_cluster_config, Config.parse_instrument_config, Config.parse_buffer_config):
-            term, n, q = ladder_term(f, unit)
+            term, n, q = K.encoding(ladder_term, f, unit)
             paths += n
             queries += q
             ob.add(f'{f.__name__}: multiplier ladder == spec for every {sort_name} unit', assume, term != want)
     k = z3.Int('k')
-    args, v, ex = observation_args(k)
+    args, v, ex = K.encoding(observation_args, k)
     lem |= ex.lemmas
     A = [k >= 1, v['start'] >= 0, v['duration'] >= 1, v['rate'] >= 0]
     for name in ('start', 'duration'):
